@@ -3,7 +3,7 @@
    Z/N/positive/nat stay Coq datatypes.  No Extract Constant / Extract Inductive of our own. *)
 Require Extraction.
 Require Import ExtrOcamlBasic.
-From Verif Require Import Lib.Bytes Model.IPRange Model.Path Model.Fs Model.Session Model.IsoRead Model.Crypt Model.Listener Model.Timeout Model.Detect Model.Config.
+From Verif Require Import Lib.Bytes Model.IPRange Model.Path Model.Fs Model.Session Model.IsoRead Model.Crypt Model.Listener Model.Timeout Model.Detect Model.Config Model.IsoBuild.
 
 Extraction Language OCaml.
 Extraction "model.ml"
@@ -15,5 +15,6 @@ Extraction "model.ml"
   Timeout.tserve
   Detect.open_file Detect.kind_read
   Config.raw_value
+  IsoBuild.build_image
   Crypt.new_encrypted Crypt.crypt_run Crypt.crypt_read_at
   Session.serve_all Session.step Session.parse_request Session.held.
